@@ -1,3 +1,5 @@
+import math
+
 import torch
 from torch import Tensor
 from torch.distributions import constraints
@@ -132,13 +134,12 @@ class BirthDeath(Distribution):
         """Probability density of lineage alive between time t and t_i gives
         rise to observed clade."""
         e = torch.exp(-A * (t - t_i))
-        return torch.log(
-            4.0
-            * e
-            / torch.pow(
-                e * (1.0 + B) + (1.0 - B),
-                2,
-            )
+        # log(4 e / (e (1 + B) + (1 - B))^2) term by term: the backward pass of the
+        # ratio squares its denominator, which overflows for large A (t - t_i)
+        return (
+            math.log(4.0)
+            - A * (t - t_i)
+            - 2.0 * torch.log(e * (1.0 + B) + (1.0 - B))
         )
 
     def log_p(self, t):
